@@ -10,7 +10,7 @@ import graph as G
 import sx
 from common import Reporter
 
-ROW_FLOOR = 160
+ROW_FLOOR = 139
 
 
 def run(tier):
@@ -21,7 +21,7 @@ def run(tier):
     rep.trusted = ["rustc nightly MIR of /repo", "spec/avr_isa.json (written from the AVR Instruction Set Manual)",
                    "E1 transfer functions and the ~40 std/byteorder summaries (analysis/summaries.py)"]
     rep.assumptions = ["Expr::run is opaque here: an operand expression evaluates to some i64 (its semantics is C05)",
-                       "ld/ldd and st/std are one family over the eleven addressing forms"]
+                       "the reduced core differs from the others in the legal registers (r16..r31) and in the one-word lds/sts"]
     P = G.Program(F.load("dev"))
     A = E.analyse(P)
     rep.count("paths of process explored", A["n_paths"])
@@ -56,6 +56,16 @@ def run(tier):
                    "%s: every legal %s (%s) is accepted" % (form, L, sx.dom_show(leg)) if ok else
                    "%s: legal %s values are rejected (accepted %s, legal %s, e.g. %s)" % (form, L, sx.dom_show(acc) if acc else "-", sx.dom_show(leg), missing),
                    detail={"accepted": sx.dom_show(acc) if acc else None, "legal": sx.dom_show(leg), "rejected": missing})
+        # the same on the reduced core, where the legal registers are r16..r31 (instructions that core lacks are C13's)
+        if r["core"] == "any" and r["op"] not in A["rc_absent_ops"]:
+            for L, leg in sorted(g.get("legal_rc", {}).items()):
+                acc = g.get("accepted_rc", {}).get(L)
+                ok = acc is not None and sx.dom_subset(leg, acc)
+                rep.ob("C01.accept-rc|%s|%s" % (tag, L), ok,
+                       "%s: on a reduced core every legal %s (%s) is accepted" % (form, L, sx.dom_show(leg)) if ok else
+                       "%s: on a reduced core legal %s values are rejected (accepted %s, legal %s)" % (form, L, sx.dom_show(acc) if acc else "-", sx.dom_show(leg)),
+                       detail={"accepted": sx.dom_show(acc) if acc else None, "legal": sx.dom_show(leg)})
+    rep.floor("reduced-core acceptance obligations", sum(1 for o in rep.obligations if o[0].startswith("C01.accept-rc|")), 240)
     # every ISA row is reachable with direct operands
     spec = E.isa()
     nrows = 0
@@ -72,4 +82,5 @@ def run(tier):
     import rules_C01_extra
     rules_C01_extra.recognition(P, rep)
     rules_C01_extra.glue(P, rep)
+    rules_C01_extra.reduced_core_devices(P, rep)
     return rep
